@@ -29,7 +29,7 @@ ENV.update({"CARGO_NET_OFFLINE": "true", "CARGO_TERM_COLOR": "never"})
 
 # Per-property settings. level: evidence level. require: counters that must be non-zero for the
 # run to count as having observed the property at all (otherwise: inconclusive, exit 2).
-HOOK_COMMITS = ["db69c86", "286b4e6"]
+HOOK_COMMITS = ["db69c86", "286b4e6", "19627ec"]
 NOT_CLAIMED = {}
 
 SIM_NOTE = ("trusted base: the harness itself (simulated network/clock, independent wire codec, oracles), tokio's paused clock, "
@@ -42,7 +42,7 @@ PROPS = {
                    "generated whole-stack executions (two real sockets, all fault classes, all configuration axes) with a content "
                    "oracle at the read boundary, a per-sequence-number content oracle on the wire and accounting cross-checks on "
                    "hooked state. Right level for a property quantified over fault sequences x schedules x inputs x configurations: "
-                   "no finite enumeration exists, so reach comes from workload diversity; the evidence reports what was observed. Real-thread stage: mtstress with the content oracle at every read (plain in both tiers, under ThreadSanitizer in the thorough tier); Miri stage (thorough): small duplex cases interpreted for undefined behaviour in the dependencies' unsafe code as the library drives it.",
+                   "no finite enumeration exists, so reach comes from workload diversity; the evidence reports what was observed. Real-thread stage: mtstress with the content oracle at every read, mixed and growth workloads (plain in both tiers, under ThreadSanitizer in the thorough tier); probe_faults family: exact faults around every size probe of a loss-free baseline, including an adaptive straggler that delivers the old copy of a probe right after the sender transmitted its sequence number again; Miri stage (thorough): small duplex cases interpreted for undefined behaviour in the dependencies' unsafe code as the library drives it.",
         level_note=SIM_NOTE,
         technique="runtime monitoring: boundary + wire content oracles over simulated executions",
         budget=dict(quick=150, thorough=1500),
@@ -65,7 +65,7 @@ PROPS = {
                    "virtual deadline (a hang jumps there at no cost); (b) every single-datagram drop/duplicate/delay position of "
                    "small baseline traces; (c) loss-free fixed-latency executions checked for wire silence > 2L+40ms, idle "
                    "write/shutdown promptness and reader wake-ups in the same logical step. Unbounded 'eventually' is restated as "
-                   "bounded progress; failures are classified by root cause so that one known stall cannot hide another. A read that is pending when the peer's FIN is handed over in sequence returns in that step (end-of-stream wake-up). Real-thread stage: mtstress (multi-threaded runtime, real clock, writers / readers on other threads than the connection tasks) with completion and content oracles, plain in both tiers and under ThreadSanitizer in the thorough tier.",
+                   "bounded progress; failures are classified by root cause so that one known stall cannot hide another. A read that is pending when the peer's FIN is handed over in sequence returns in that step (end-of-stream wake-up). Real-thread stage: mtstress (multi-threaded runtime, real clock, writers / readers on other threads than the connection tasks) with completion and content oracles, plain in both tiers and under ThreadSanitizer in the thorough tier; tiny-ring, spin-poll and ping (write-flush-write) workloads with lost wake-up oracles on fresh wakers and on hooked snapshots (a writer registered as waiting next to free space, the connection task registered as waiting next to buffered bytes).",
         level_note=SIM_NOTE + "; fairness model: per-identity drop budget 1, handshake packets protected (SYNs are not retransmitted, "
                    "the accepting side gives up after 1 s by design), inactivity limit configured large in the fair-lossy family",
         technique="runtime monitoring: bounded-progress and promptness oracles on virtual time + single-fault sweep",
@@ -88,7 +88,7 @@ PROPS = {
                    "token cancellation hits at a generated time, plus the general duplex family with all loss patterns and call "
                    "orders. Oracles: Ok implies all covered bytes were acknowledged and still reach a reading peer; EOF only after "
                    "every byte below the FIN and never short of a successful shutdown; after a connection ends every pending / later "
-                   "call returns at once and honestly; a vanished peer ends the connection within the inactivity limit. General family, any network: what a successful flush / shutdown covered is compared with what a peer application that reads to the end of its stream actually got.",
+                   "call returns at once and honestly; a vanished peer ends the connection within the inactivity limit. General family, any network: what a successful flush / shutdown covered is compared with what a peer application that reads to the end of its stream actually got. Real-thread stage: mtstress growth workload whose writers end with flush().await while the TX ring grows under them on another thread (every byte a successful flush covered must be read, and checked, by the peer).",
         level_note=SIM_NOTE,
         technique="runtime monitoring with fault injection: cut-at-Ok, vanish, RESET, cancel; history oracles at the API boundary",
         budget=dict(quick=200, thorough=2400),
@@ -418,7 +418,7 @@ PROPS = {
                    "against max(initial, maximum) at every write return; ring length <= capacity <= limit at every poll boundary "
                    "(hook); a pending write completes in the step in which a processed ACK freed space; with a peer silent for good "
                    "the pending write ends with an error when the connection fails; the C01 wire content oracle across every "
-                   "growth step of the ring. Real-thread stage: mtstress with tiny TX buffers (writers block and are woken by connection tasks on other threads), plain and under ThreadSanitizer; Miri stage (thorough): TX-ring growth scripts.",
+                   "growth step of the ring. Real-thread stage: mtstress with tiny TX buffers (writers block and are woken by connection tasks on other threads), growth workload (ring copied while the writer pushes from another thread) and spin-poll workload (every poll of a full ring registers a fresh waker; when room shows, that waker must be woken), plain and under ThreadSanitizer; Miri stage (thorough): TX-ring growth scripts.",
         level_note=SIM_NOTE,
         technique="runtime monitoring: scripted-peer stimulus + boundary accounting oracle + hooked ring invariants",
         budget=dict(quick=200, thorough=2400),
@@ -446,6 +446,10 @@ _SPIN = ["--threads", "8", "--pairs", "4", "--conns", "2", "--bytes", "20000", "
 _PING = ["--threads", "8", "--pairs", "4", "--conns", "2", "--bytes", "10000", "--rounds", "1", "--profile", "4"]
 _GROW_TSAN = ["--threads", "8", "--pairs", "4", "--conns", "4", "--bytes", "200000", "--rounds", "1", "--profile", "1"]
 MT_STAGE = {
+    "C03": dict(quick=[("plain", 6, "growth+flush", _GROW + ["--flush-end", "1"])],
+                thorough=[("plain", 30, "growth+flush", _GROW + ["--flush-end", "1"]),
+                          ("plain", 6, "ping", _PING),
+                          ("tsan", 2, "growth+flush", _GROW_TSAN + ["--flush-end", "1"])]),
     "C01": dict(quick=[("plain", 1, "mixed", _MIXED_Q), ("plain", 6, "growth", _GROW)],
                 thorough=[("plain", 8, "mixed", ["--threads", "8", "--pairs", "4", "--conns", "6", "--bytes", "400000", "--rounds", "3"]),
                           ("plain", 40, "growth", _GROW),
@@ -595,6 +599,8 @@ def run_mt_stage(pid, tier, seed):
         "spin_room_after_full_events_checked_for_a_wakeup": tot("spin_room_after_full_events"),
         "spin_wakeups_that_arrived_after_the_next_successful_poll": tot("spin_wakeups_confirmed_late"),
         "spin_flushes_completed": tot("spin_flushes_completed"),
+        "final_flushes_ok": tot("final_flushes_ok"),
+        "final_flushes_err": tot("final_flushes_err"),
         "final_flushes_that_met_the_peers_close": tot("final_flushes_that_met_the_peers_close"),
         "tx_snapshots_checked_for_a_sleeping_connection_task": tot("tx_snapshots_checked_for_a_sleeping_connection_task"),
         "snapshots_with_the_connection_task_waiting_next_to_data": tot("snapshots_with_the_connection_task_waiting_next_to_data"),
